@@ -21,11 +21,9 @@ Fixpoint drain (fuel : nat) (buf : list N) : list N * bool * list rx_out * bool 
     let len_ := be_val (firstn 4 buf) 0 + 4 in
     if N.of_nat (length buf) <? len_ then (buf, true, [], false) else
     let n := N.to_nat len_ in
-    match hframe_decode (firstn n buf) with
-    | Ok (h, d) =>
-      let '(b, blk, out, ab) := drain f (skipn n buf) in (b, blk, Delivered h d :: out, ab)
-    | Err _ => (skipn n buf, false, [Dropped], true)
-    end
+    (* a frame that is not an HSMS message (too short for a header, an undefined SType) is dropped, the loop goes on (D68) *)
+    let o := match hframe_decode (firstn n buf) with Ok (h, d) => Delivered h d | Err _ => Dropped end in
+    let '(b, blk, out, ab) := drain f (skipn n buf) in (b, blk, o :: out, ab)
   end.
 
 (* a segment arrives: appended, the receiver callback runs once *)
